@@ -16,10 +16,10 @@ package retrypolicy
 //@   ensures result >= 0
 //@ extfunc github.com/failsafe-go/failsafe-go.ExecutionAttempt.ElapsedTime
 //@   modifies nothing
-//@   ensures result >= 0
+//@   ensures result >= 0 && result <= 4611686018427387904
 //@ extfunc github.com/failsafe-go/failsafe-go/policy.ExecutionInternal.ElapsedTime
 //@   modifies nothing
-//@   ensures result >= 0
+//@   ensures result >= 0 && result <= 4611686018427387904
 
 // ---------------------------------------------------------------------------------------------
 // C13 -- delays
@@ -60,6 +60,7 @@ package retrypolicy
 //@   requires e.jitter != 0
 //@   requires 0 < e.jitter && e.jitter <= 9007199254740992 && delay >= -4503599627370496 && delay <= 4503599627370496
 //@   ensures [C13.jitter.bound] result - delay <= e.jitter && delay - result <= e.jitter
+//@   ensures [C13.jitter.range] result >= -4611686018427387904 && result <= 4611686018427387904
 //@   modifies nothing
 
 //@ func (*executor).adjustForJitter case nojitter
@@ -74,4 +75,149 @@ package retrypolicy
 //@   requires e.jitter == 0 && e.jitterFactor != 0
 //@   requires e.jitterFactor > 0 && e.jitterFactor <= 1 && 0 < delay && delay <= 35184372088832
 //@   ensures [C13.jitterfactor.nonnegative] result >= 0
+//@   ensures [C13.jitterfactor.range] result <= 4611686018427387904
 //@   modifies nothing
+
+// getDelay: delay function value when it returns one, else fixed/backoff/random; then jitter, then the max-duration clamp.
+// Jitter never accumulates: lastDelay is exactly what getFixedOrRandomDelay left (ghost g), or untouched.
+//@ func (*executor).getDelay
+//@   requires e != nil && e.retryPolicy != nil && e.config != nil && e.BaseDelayablePolicy != nil && exec != nil
+//@   requires e.Delay <= 4503599627370496
+//@   requires e.maxDuration >= 0 && e.maxDuration <= 4611686018427387904
+//@   requires e.Delay != 0 ==> 0 < e.Delay && (e.maxDelay != 0 ==> e.Delay <= e.maxDelay && e.maxDelay <= 35184372088832 && e.delayFactor >= 1 && e.delayFactor <= 65536)
+//@   requires e.Delay != 0 ==> e.lastDelay == 0 || (0 < e.lastDelay && (e.maxDelay != 0 ==> e.lastDelay <= e.maxDelay))
+//@   requires (e.Delay == 0 && e.delayMin != 0 && e.delayMax != 0) ==> 0 < e.delayMin && e.delayMin <= e.delayMax && e.delayMax <= 9007199254740992
+//@   requires e.jitter >= 0 && e.jitter <= 9007199254740992 && e.jitterFactor >= 0 && e.jitterFactor <= 1
+//@   ext computed := ret(e.DelayFunc, 1)
+//@   ext el := ret(exec.ElapsedTime, 1)
+//@   premise computed >= -1 && computed <= 4503599627370496
+//@   let useFunc := e.DelayFunc != nil && computed != -1
+//@   oncall getFixedOrRandomDelay: g := e.lastDelay
+//@   ensures [C13.delay.nonnegative] result >= 0
+//@   ensures [C13.delay.maxduration] e.maxDuration != 0 ==> result <= max(0, e.maxDuration - el)
+//@   ensures [C13.delay.func_used] useFunc && e.jitter == 0 && e.jitterFactor == 0 ==> result == max(0, ite(e.maxDuration != 0, min(computed, e.maxDuration - el), computed))
+//@   ensures [C13.delay.func_keeps_backoff_state] useFunc ==> e.lastDelay == old(e.lastDelay)
+//@   ensures [C13.delay.no_jitter_accumulation] !useFunc ==> e.lastDelay == g
+//@   ensures [C13.delay.state_inv] e.Delay != 0 ==> e.lastDelay == 0 || (0 < e.lastDelay && (e.maxDelay != 0 ==> e.lastDelay <= e.maxDelay))
+//@   ensures [C13.delay.fixed] !useFunc && e.Delay != 0 && e.maxDelay == 0 && e.jitter == 0 && e.jitterFactor == 0 ==> result == max(0, ite(e.maxDuration != 0, min(e.Delay, e.maxDuration - el), e.Delay))
+//@   ensures [C13.delay.jitter] !useFunc && e.Delay != 0 && e.jitter != 0 && e.maxDuration == 0 ==> result - g <= e.jitter && (result == 0 || g - result <= e.jitter)
+//@   havoc
+//@   modifies e.lastDelay, calls(e.DelayFunc), calls(exec.Retries), calls(exec.ElapsedTime)
+
+// summary of adjustForJitter for callers (the three cases are verified above)
+//@ func (*executor).adjustForJitter
+//@   summary
+//@   requires e != nil && e.retryPolicy != nil && e.config != nil
+//@   ensures e.jitter == 0 && e.jitterFactor == 0 ==> result == delay
+//@   ensures e.jitter != 0 && 0 < e.jitter && e.jitter <= 9007199254740992 && delay >= -4503599627370496 && delay <= 4503599627370496 ==> result - delay <= e.jitter && delay - result <= e.jitter
+//@   ensures e.jitter == 0 && e.jitterFactor != 0 && e.jitterFactor > 0 && e.jitterFactor <= 1 && 0 < delay && delay <= 35184372088832 ==> result >= 0
+//@   ensures result >= -4611686018427387904 && result <= 4611686018427387904
+//@   modifies nothing
+
+// ---------------------------------------------------------------------------------------------
+// C02 / C16 -- OnFailure: counting, the stop decision, the final result, the events.
+//@ macro abortableOf(e, r, err) = exists j int :: 0 <= j && j < len(e.abortConditions) && appb(e.abortConditions[j], r, err)
+//@ macro retryWellFormed(e) = e != nil && e.BaseExecutor != nil && e.retryPolicy != nil && e.config != nil && e.BaseAbortablePolicy != nil && e.BaseDelayablePolicy != nil && (forall j int :: 0 <= j && j < len(e.abortConditions) ==> e.abortConditions[j] != nil) && condsWellFormed(e.BaseExecutor)
+// listeners registered for different events are different function values (otherwise the per-event counts add up)
+//@ macro retryListenersDistinct(e) = (e.onAbort == nil || (e.onAbort != e.onRetry && e.onAbort != e.onRetriesExceeded && e.onAbort != e.onFailure && e.onAbort != e.onSuccess)) && (e.onRetriesExceeded == nil || (e.onRetriesExceeded != e.onRetry && e.onRetriesExceeded != e.onFailure && e.onRetriesExceeded != e.onSuccess)) && (e.onRetry == nil || (e.onRetry != e.onFailure && e.onRetry != e.onSuccess)) && (e.BaseFailurePolicy == nil || e.onFailure == nil || e.onFailure != e.onSuccess)
+
+//@ func (*executor).OnFailure
+//@   requires retryWellFormed(e) && exec != nil && result != nil
+//@   requires e.failedAttempts >= 0 && e.failedAttempts <= 4611686018427387904
+//@   premise retryListenersDistinct(e)
+//@   ext el := ret(exec.ElapsedTime, 1)
+//@   oldlet fa := e.failedAttempts + 1
+//@   let ex := (e.maxRetries != -1 && fa > e.maxRetries) || (e.maxDuration != 0 && el > e.maxDuration)
+//@   let ab := abortableOf(e, result.Result, result.Error)
+//@   let allows := e.maxRetries == -1 || e.maxRetries > 0
+//@   ensures [C02.count] e.failedAttempts == fa && e.retriesExceeded == ex
+//@   ensures [C02.done] result_0 != nil && result_0.Done == (ab || ex || !allows)
+//@   ensures [C02.exceeded_error] ex && !e.returnLastFailure ==> typeis(result_0.Error, ExceededError) && result_0.Error.(ExceededError).LastResult == result.Result && result_0.Error.(ExceededError).LastError == result.Error && result_0.Done && !result_0.Success && !result_0.SuccessAll
+//@   ensures [C02.outcome_unchanged] !(ex && !e.returnLastFailure) ==> result_0.Result == result.Result && result_0.Error == result.Error && !result_0.Success && !result_0.SuccessAll
+//@   ensures [C16.retry.abort] (ab && e.onAbort != nil ==> ncalls(e.onAbort) == 1) && (!ab ==> ncalls(e.onAbort) == 0)
+//@   ensures [C16.retry.exceeded] (ex && !ab && e.onRetriesExceeded != nil ==> ncalls(e.onRetriesExceeded) == 1) && (!(ex && !ab) ==> ncalls(e.onRetriesExceeded) == 0)
+//@   ensures [C16.retry.policy_failure] ncalls(e.onRetry) == 0 && ncalls(e.onRetryScheduled) == 0
+//@   havoc
+//@   modifies e.failedAttempts, e.retriesExceeded, calls(e.onAbort), calls(e.onRetriesExceeded), calls(e.onFailure), calls(exec.CopyWithResult), calls(exec.ElapsedTime)
+
+//@ func (*config).allowsRetries
+//@   requires c != nil
+//@   ensures [C02.allows] result == (c.maxRetries == -1 || c.maxRetries > 0)
+//@   modifies nothing
+
+//@ func (*config).WithMaxAttempts
+//@   builder
+//@   requires c != nil && maxAttempts >= -1 && maxAttempts != 0
+//@   ensures [C02.maxattempts] c.maxRetries == ite(maxAttempts == -1, -1, maxAttempts - 1)
+//@   modifies c.maxRetries
+//@ func (*config).WithMaxRetries
+//@   builder
+//@   requires c != nil
+//@   ensures [C02.maxretries] c.maxRetries == maxRetries
+//@   modifies c.maxRetries
+
+// A fresh executor per execution: the budget belongs to one execution (C02), the state is confined (C14).
+//@ func (*retryPolicy).ToExecutor
+//@   requires rp != nil && rp.config != nil
+//@   let x := asref(result, *executor)
+//@   ensures [C02.fresh_executor] typeis(result, *executor) && fresh(x) && x.failedAttempts == 0 && !x.retriesExceeded && x.lastDelay == 0 && x.retryPolicy == rp && fresh(x.BaseExecutor) && x.BaseExecutor.BaseFailurePolicy == rp.BaseFailurePolicy && typeis(x.Executor, *executor) && asref(x.Executor, *executor) == x
+//@   modifies nothing
+
+// Environment (assumed here; proved for the real *execution in package failsafe)
+//@ extfunc github.com/failsafe-go/failsafe-go/policy.ExecutionInternal.RecordResult
+//@   modifies nothing
+//@ extfunc github.com/failsafe-go/failsafe-go/policy.ExecutionInternal.InitializeRetry
+//@   modifies nothing
+//@ extfunc github.com/failsafe-go/failsafe-go.Execution.Canceled
+//@   modifies nothing
+
+// ---------------------------------------------------------------------------------------------
+// C02 -- the retry loop. n = ncalls(innerFn) so far; every earlier attempt ended in a failure the policy
+// handles, was not abortable and did not exceed the budget: a loop round is taken only then.
+//@ macro attemptFailed(e, r) = isFailureOf(e.BaseExecutor, cast(r, *common.PolicyResult).Result, cast(r, *common.PolicyResult).Error) && !abortableOf(e, cast(r, *common.PolicyResult).Result, cast(r, *common.PolicyResult).Error)
+
+//@ func (*executor).Apply$1
+//@   dyntype policy.Executor *executor
+//@   inlinecalls (*BaseExecutor).PostExecute
+//@   requires retryWellFormed(e) && innerFn != nil && typeis(exec, *failsafe.execution)
+//@   requires typeis(e.Executor, *executor) && asref(e.Executor, *executor) == e
+//@   requires e.failedAttempts >= 0 && e.failedAttempts <= 1073741824 && e.maxRetries <= 1073741824
+//@   requires e.maxRetries != -1 && e.failedAttempts > e.maxRetries ==> e.retriesExceeded
+//@   requires e.maxDuration >= 0 && e.maxDuration <= 4611686018427387904 && e.Delay <= 4503599627370496
+//@   requires e.Delay != 0 ==> 0 < e.Delay && (e.maxDelay != 0 ==> e.Delay <= e.maxDelay && e.maxDelay <= 35184372088832 && e.delayFactor >= 1 && e.delayFactor <= 65536)
+//@   requires e.Delay != 0 ==> e.lastDelay == 0 || (0 < e.lastDelay && (e.maxDelay != 0 ==> e.lastDelay <= e.maxDelay))
+//@   requires (e.Delay == 0 && e.delayMin != 0 && e.delayMax != 0) ==> 0 < e.delayMin && e.delayMin <= e.delayMax && e.delayMax <= 9007199254740992
+//@   requires e.jitter >= 0 && e.jitter <= 9007199254740992 && e.jitterFactor >= 0 && e.jitterFactor <= 1
+//@   premise retryListenersDistinct(e)
+//@   premise forall i int :: i >= 1 ==> ret(innerFn, i) != nil
+//@   oldlet fa0 := e.failedAttempts
+//@   oldlet ex0 := e.retriesExceeded
+//@   oncall InitializeRetry: assume sel(1) == 1 ==> ret(exec.InitializeRetry, ncalls(exec.InitializeRetry)) != nil
+//@   loop 0 invariant ncalls(innerFn) >= 0 && ncalls(innerFn) == e.failedAttempts - fa0 && e.failedAttempts <= 1073741824 + ncalls(innerFn)
+//@   loop 0 invariant ncalls(innerFn) > 0 ==> !e.retriesExceeded && (e.maxRetries == -1 || e.failedAttempts <= e.maxRetries)
+//@   loop 0 invariant ncalls(innerFn) == 0 ==> e.retriesExceeded == ex0
+//@   loop 0 invariant ncalls(exec.IsCanceledWithResult) == ncalls(innerFn)
+//@   loop 0 invariant ncalls(innerFn) == 0 && e.BaseFailurePolicy != nil ==> ncalls(e.onFailure) == 0
+//@   loop 0 invariant [C13.no_early_retry] ncalls(innerFn) > 0 ==> sel(1) == 0
+//@   loop 0 invariant [C16.retry.loop_events] (e.onRetry != nil ==> ncalls(e.onRetry) == ncalls(innerFn)) && (e.onRetryScheduled != nil ==> ncalls(e.onRetryScheduled) == ncalls(innerFn)) && ncalls(e.onAbort) == 0 && ncalls(e.onRetriesExceeded) == 0
+//@   loop 0 invariant [C02.only_after_failure] forall i int :: 1 <= i && i <= ncalls(innerFn) ==> attemptFailed(e, ret(innerFn, i))
+//@   loop 0 invariant e.Delay != 0 ==> e.lastDelay == 0 || (0 < e.lastDelay && (e.maxDelay != 0 ==> e.lastDelay <= e.maxDelay))
+//@   let n := ncalls(innerFn)
+//@   ensures [C02.at_least_once] n >= 1
+//@   ensures [C02.budget] e.maxRetries != -1 && !ex0 ==> n - 1 <= max(0, e.maxRetries - fa0)
+//@   let cancA := retb(exec.IsCanceledWithResult, n, 0)
+//@   let last := cast(ret(innerFn, n), *common.PolicyResult)
+//@   let lastFailed := isFailureOf(e.BaseExecutor, last.Result, last.Error)
+//@   ensures [C02.exceeded_passthrough] ex0 ==> n == 1
+//@   ensures [C02.exceeded_untouched] ex0 && !cancA ==> result == ret(innerFn, 1) && e.failedAttempts == fa0
+//@   ensures [C16.retry.exceeded_once] ex0 && !cancA ==> ncalls(e.onRetriesExceeded) == 0 && ncalls(e.onAbort) == 0
+//@   ensures [C16.retry.exceeded_once_b] ex0 && !cancA && e.BaseFailurePolicy != nil ==> ncalls(e.onFailure) == 0
+//@   ensures [C02.every_failure_handled] !ex0 && !cancA && lastFailed ==> e.failedAttempts - fa0 == n
+//@   ensures [C02.success_stops] !ex0 && !cancA && !lastFailed ==> e.failedAttempts - fa0 == n - 1 && result.Result == last.Result && result.Error == last.Error && result.Done && result.Success
+//@   ensures [C08.retry.cancel_reported] cancA ==> result == ret(exec.IsCanceledWithResult, n, 1)
+//@   ensures [C02.checks_cancel_each_attempt] ncalls(exec.IsCanceledWithResult) == n
+//@   ensures [C02.only_after_failure] forall i int :: 1 <= i && i < n ==> attemptFailed(e, ret(innerFn, i))
+//@   ensures [C02.same_execution] forall i int :: 1 <= i && i <= n ==> arg(innerFn, i, 0) == exec
+//@   ensures [C16.retry.events] (e.onRetry != nil ==> ncalls(e.onRetry) == n - 1) && (e.onRetryScheduled != nil ==> n - 1 <= ncalls(e.onRetryScheduled) && ncalls(e.onRetryScheduled) <= n) && ncalls(e.onAbort) <= 1 && ncalls(e.onRetriesExceeded) <= 1
+//@   havoc
+//@   modifies e.failedAttempts, e.retriesExceeded, e.lastDelay, calls(innerFn), calls(e.onAbort), calls(e.onRetriesExceeded), calls(e.onFailure), calls(e.onSuccess), calls(e.onRetry), calls(e.onRetryScheduled), calls(e.DelayFunc), calls(exec.CopyWithResult), calls(exec.ElapsedTime), calls(exec.Retries), calls(exec.IsCanceledWithResult), calls(exec.RecordResult), calls(exec.InitializeRetry), calls(exec.Canceled)
